@@ -152,9 +152,11 @@ def main():
             for under_root in (False, True):
                 ev += 1
                 d = Dfg()
-                inner = d.add_nested()
+                # the requested parent is neither the loading container nor the HUGR root: a container in between
+                mid = d.add_nested()
+                inner = mid.add_nested()
                 host = inner if under_root else d
-                cp = d.parent_node if under_root else None
+                cp = mid.parent_node if under_root else None
                 bad = None
                 for v in (v1, v2, v1):
                     ld = host.load(v, const_parent=cp) if under_root else host.load(v)
@@ -171,7 +173,7 @@ def main():
     emit({
         "name": "bounded.c14",
         "kind": "small-scope value expressions against an independent inhabitation oracle (differential check) + DfBase.load (bounded stand-in)",
-        "bound": f"{len(atoms)} atoms, all unary/binary helpers over them, a third level over a sample: {len(pool)} values; widths 0..6; arrays of length 0, 1, 3; load sequences v1, v2, v1 over 12 look-alike values, in the container and under a requested parent",
+        "bound": f"{len(atoms)} atoms, all unary/binary helpers over them, a third level over a sample: {len(pool)} values; widths 0..6; arrays of length 0, 1, 3; load sequences v1, v2, v1 over 12 look-alike values, in the container and under a requested parent that is neither the container nor the root",
         "exhaustive": False,
         "evaluations": ev,
         "distinct_nontrivial": len(pool) - len(atoms) + len(checks),
